@@ -42,8 +42,10 @@ func codecCore(ops *typeOps) {
 	vrt.SetOwner("user")
 	pv := ops.NewZero()
 	fixedShape = vrt.ParamOr("shape", -1) // >= 0: one fixed shape (0 everything nil/absent/empty, 2 everything present with one element)
+	userSpare = nil
 	ops.Fill(pv, "v")
 	fixedShape = -1
+	spare := snapSpare()
 	rv := ops.ToRef(pv)
 	ref := refEncodeStruct(ops.St, rv, nil)
 	n := len(ref)
@@ -114,6 +116,7 @@ func codecCore(ops *typeOps) {
 		}
 		vrt.Reach("short")
 	}
+	vrt.Check(spareIntact(spare), "C16 spare capacity of the value's byte slices untouched by size/encode")
 	vrt.Freeze("user", false)
 	vrt.Observe("enc", buf[:n])
 
@@ -143,6 +146,44 @@ func codecCore(ops *typeOps) {
 	vrt.Reach("end")
 }
 
+// allocCore (C18): after the type has been used (setup: registration; then one size+encode of the same value, which
+// warms the per-type pools), EncodedSize and EncodeObject with a pointer and a sufficient buffer execute no allocating
+// operation, for every shape and all contents.
+func allocCore(ops *typeOps) {
+	boundParams()
+	vrt.SetOwner("user")
+	pv := ops.NewZero()
+	fixedShape = vrt.ParamOr("shape", -1)
+	ops.Fill(pv, "v")
+	fixedShape = -1
+	rv := ops.ToRef(pv)
+	ref := refEncodeStruct(ops.St, rv, nil)
+	n := len(ref)
+	vrt.SetOwner("buf")
+	buf := vrt.Bytes("buf", n+bufPad)
+	vrt.SetOwner("impl")
+	vrt.Freeze("user", true)
+	vrt.Phase("encode")
+	var iv interface{} = pv
+	EncodedSize(iv)
+	EncodeObject(buf, nil, iv)
+	best := ^uint64(0)
+	for r := 0; r < vrt.AllocReps(); r++ {
+		vrt.AllocTrack()
+		sz := EncodedSize(iv)
+		k, err := EncodeObject(buf, nil, iv)
+		a := vrt.AllocEvents()
+		if a < best {
+			best = a
+		}
+		vrt.Check(sz == n && k == n && err == nil, "C04 size and encode agree with the reference length")
+	}
+	vrt.Check(best == 0, "C18 EncodedSize/EncodeObject(ptr, sufficient buffer) allocate nothing after first use")
+	vrt.Freeze("user", false)
+	vrt.Phase("")
+	vrt.Reach("end")
+}
+
 type VEnum int64
 
 func rI(v int64) *RVal    { return &RVal{U: uint64(v)} }
@@ -153,12 +194,45 @@ func rBin(b []byte) *RVal { return &RVal{B: b, Nil: b == nil} }
 
 // fillUnknown: contents of an _unknownFields holder: nil, or one well-formed
 // unknown field (I32, id 30000) with a symbolic value.
+// userSpare: full-capacity views of the byte slices inside the user's value. Slices of a caller's value may have spare
+// capacity (a prefix of a larger buffer, a slice built with append): the bytes between len and cap are the caller's
+// memory too and must survive EncodedSize / EncodeObject (C16).
+var userSpare [][]byte
+
+// userBytes: n symbolic bytes with two further symbolic bytes of spare capacity behind them.
+func userBytes(name string, n int) []byte {
+	b := make([]byte, n+2)
+	copy(b, vrt.Bytes(name, n))
+	copy(b[n:], vrt.Bytes(name+"+", 2))
+	userSpare = append(userSpare, b)
+	return b[:n]
+}
+
+func snapSpare() [][]byte {
+	out := make([][]byte, len(userSpare))
+	for i, b := range userSpare {
+		out[i] = append([]byte{}, b...)
+	}
+	return out
+}
+
+func spareIntact(snap [][]byte) bool {
+	ok := true
+	for i, b := range userSpare {
+		if !vrt.BytesEq(b, snap[i]) {
+			ok = false
+		}
+	}
+	return ok
+}
+
 func fillUnknown(name string) []byte {
 	if vrt.Choice(name+"#", 2) == 0 {
 		return nil
 	}
-	b := []byte{8, 0x75, 0x30}
-	return append(b, vrt.Bytes(name, 4)...)
+	b := userBytes(name, 7)
+	b[0], b[1], b[2] = 8, 0x75, 0x30
+	return b
 }
 
 // prefillUnknown: holder contents left over from an earlier decode into the same destination (24 arbitrary bytes, spare
